@@ -370,6 +370,17 @@ type runner struct {
 	udp     bool
 	extra   []*bmc.V2SessionlessTransport
 	kept    map[string]ipmi.Command // command values reused across calls of one script (step option "keep")
+	pwBuf   []byte                  // credential buffers rewritten in place (script option "reuseCreds")
+	kgBuf   []byte
+}
+
+func keepBuf(buf *[]byte, v []byte) []byte {
+	if len(v) > 0 && len(*buf) == len(v) {
+		copy(*buf, v)
+		return *buf
+	}
+	*buf = append([]byte(nil), v...)
+	return *buf
 }
 
 func (r *runner) target(s M) bmc.Connection {
@@ -402,6 +413,11 @@ func (r *runner) invoke(ctx context.Context, s M, ret M) {
 			opts := &bmc.V2SessionOpts{}
 			if e := populate(reflect.ValueOf(opts).Elem(), args); e != nil {
 				panic("harness: " + e.Error())
+			}
+			if o, ok := r.sc["opts"].(map[string]any); ok && o["reuseCreds"] == true {
+				// the caller keeps one buffer per credential and rewrites it in place between establishments
+				opts.Password = keepBuf(&r.pwBuf, opts.Password)
+				opts.KG = keepBuf(&r.kgBuf, opts.KG)
 			}
 			var v2 *bmc.V2Session
 			v2, err = r.conn.NewV2Session(ctx, opts)
@@ -535,6 +551,8 @@ func (r *runner) invoke(ctx context.Context, s M, ret M) {
 		}
 		setErr(r.sess.Close(ctx))
 		r.mt.inSess = false
+		// the caller drops a closed session: "the session obtained" now means the one a later establishment returns
+		r.sess, r.v2sess = nil, nil
 	case "ConnClose":
 		setErr(r.conn.Close())
 	case "DialV2": // the library's own dialler (hook-free): an unusable address fails, a loopback address succeeds
